@@ -19,6 +19,21 @@ def body(r):
     n = 100 if r.tier == "quick" else 3000
     rr = R.stream(r.seed, "c17-plans")
     worlds = [swarm.build_world(r.seed, 70000 + i, "ins", ["ins"], rr, p_fault=0.3, max_cycles=2) for i in range(n)]
+    # targeted: a min_remove of a quarter to a half of nlive with small min_samples and steep thresholds, so that
+    # the live set can become smaller than min_remove (the clamp must then stay inside the live set)
+    for i in range(24 if r.tier == "quick" else 400):
+        w = swarm.build_world(r.seed, 75000 + i, "ins", ["ins"], rr, p_fault=0.2, max_cycles=1)
+        k = w["scenario"]["kwargs"]
+        k.pop("n_update", None)
+        k.pop("max_samples", None)
+        k["min_remove"] = k["nlive"] // rr.choice([4, 3, 2])
+        k["min_samples"] = rr.choice([2, 5, 10])
+        k["strict_threshold"] = rr.random() < 0.7
+        k["threshold_method"] = "quantile"
+        k["threshold_kwargs"] = {"q": rr.choice([0.5, 0.8, 0.95]), "include_likelihood": rr.random() < 0.6}
+        k["max_iteration"] = rr.choice([6, 8, 10])
+        k.pop("min_iteration", None)
+        worlds.append(w)
     swarm.run_swarm(r, PROP, worlds, oracles=ORACLES)
     return r.finish(
         minimise=swarm.make_minimiser(PROP, (), ORACLES),
